@@ -66,6 +66,14 @@ var c19Funcs = []c19Fn{
 	{"vcr/pe/presentation_submission.go", "PresentationSubmission", "Resolve"},
 	{"vcr/pe/presentation_submission.go", "PresentationSubmissionBuilder", "Build"},
 	{"discovery/module.go", "Module", "Search"},
+	{"discovery/module.go", "Module", "Register"},
+	{"discovery/module.go", "Module", "verifyRegistration"},
+	{"discovery/module.go", "Module", "validateRegistration"},
+	{"discovery/module.go", "Module", "validateRetraction"},
+	{"discovery/client.go", "clientUpdater", "updateService"},
+	{"discovery/store.go", "", "storePresentation"},
+	{"http/client/client.go", "StrictHTTPClient", "WithRedirectCheck"},
+	{"http/client/client.go", "StrictHTTPClient", "Do"},
 	{"vcr/revocation/statuslist2021_verifier.go", "StatusList2021", "Verify"},
 	{"vcr/revocation/statuslist2021_verifier.go", "StatusList2021", "statusList"},
 	{"vcr/revocation/statuslist2021_verifier.go", "StatusList2021", "update"},
@@ -552,6 +560,24 @@ func extractC19() *lean {
 		}
 	}
 	l.def("bucketIndicesCapsK", "Bool", map[bool]string{true: "true", false: "false"}[caps], caps)
+	// every http.Client the http/client package constructs: which members its composite literal sets (a client without Timeout waits for ever)
+	hc := get("http/client/client.go")
+	var hcLits []string
+	var hcRaw [][]string
+	ast.Inspect(hc, func(n ast.Node) bool {
+		if cl, ok := n.(*ast.CompositeLit); ok && cl.Type != nil && c19Expr(cl.Type) == "http.Client" {
+			var keys []string
+			for _, el := range cl.Elts {
+				if kv, ok := el.(*ast.KeyValueExpr); ok {
+					keys = append(keys, c19Expr(kv.Key))
+				}
+			}
+			hcLits = append(hcLits, leanStrList(keys))
+			hcRaw = append(hcRaw, keys)
+		}
+		return true
+	})
+	l.def("httpClientLiterals", "List (List String)", "["+strings.Join(hcLits, ", ")+"]", hcRaw)
 	dp := get("crypto/dpop/dpop.go")
 	v := c19ConstNat(dp, "maxJtiLength")
 	l.def("maxJtiLength", "Nat", v, v)
